@@ -8,7 +8,8 @@ const DUMMY_HEADER: &str = r#"asn1 { dummy(999) header(999) }
 
 DEFINITIONS AUTOMATIC TAGS::= BEGIN
 "#;
-const DUMMY_FOOTER: &str = r#"END"#;
+const DUMMY_FOOTER: &str = r#"
+END"#;
 
 struct MacroInput {
     asn: LitStr,
